@@ -391,6 +391,9 @@ func isBoolRes(v *variants.Variant, err error) (bool, bool) {
 	return v.AsBoolean(), true
 }
 
+var c06Managers = map[bool]variants.IVariantOperations{}
+var c06ScratchA, c06ScratchB = variants.EmptyVariant(), variants.EmptyVariant()
+
 func runC06(in sx.SX) (sx.SX, string) {
 	l := sx.AsList(in)
 	safe, op := sx.AsBool(l[0]), int(sx.AsInt(l[1]))
@@ -580,6 +583,35 @@ func runC06(in sx.SX) (sx.SX, string) {
 	// undefined operations yield an error
 	if fail == "" && (op == 4 || op == 5) && (a.Type() == variants.Integer || a.Type() == variants.Long) && strings.HasPrefix(sx.Text(l[3]), "(1 0)") && err == nil {
 		fail = "integer division by zero returned a value: " + sx.Text(obs)
+	}
+	// one manager object and two operand objects that live through the whole run: the operands are given their values
+	// in place (Assign) and the long-lived manager applies the operator - the outcome may depend neither on what the
+	// objects held before nor on what the manager converted before; then the second operand is given another value of
+	// the same type in place and the same call must see the new value
+	if fail == "" && binary {
+		lm := c06Managers[safe]
+		if lm == nil {
+			lm = newManager(safe)
+			c06Managers[safe] = lm
+		}
+		for round := 0; round < 2 && fail == ""; round++ {
+			c06ScratchA.Assign(a)
+			c06ScratchB.Assign(b)
+			r1, e1 := applyOp(lm, op, c06ScratchA, c06ScratchB)
+			if o1, _ := resSX(r1, e1); sx.Text(o1) != sx.Text(obs) {
+				fail = fmt.Sprintf("a manager object and operand objects used before (values given in place by Assign): the operator returns %s, fresh objects give %s", sx.Text(o1), sx.Text(obs))
+				break
+			}
+			other := c07Other(b)
+			c06ScratchB.Assign(other)
+			r2, e2 := applyOp(lm, op, c06ScratchA, c06ScratchB)
+			r3, e3 := applyOp(newManager(safe), op, valFromSX(l[2]), other)
+			o2, _ := resSX(r2, e2)
+			o3, _ := resSX(r3, e3)
+			if sx.Text(o2) != sx.Text(o3) {
+				fail = fmt.Sprintf("the second operand object given %s in place: the same manager object returns %s, fresh objects give %s", sx.Text(valSX(other)), sx.Text(o2), sx.Text(o3))
+			}
+		}
 	}
 	// what an operator returns belongs to the caller: writing into it in place changes neither the operands, nor the
 	// package's shared null constant, nor what the same call returns next time
